@@ -742,6 +742,24 @@ func runC16(p *Program, r *Result) {
 				}
 			}
 		}
+		// the same decoration in a named helper: `defer prefixError(i.name, &err)`
+		for _, b := range unw.Blocks {
+			for _, in := range b.Instrs {
+				d, isDefer := in.(*ssa.Defer)
+				if !isDefer {
+					continue
+				}
+				callee := d.Call.StaticCallee()
+				if callee == nil || callee.Blocks == nil || callee.Parent() != nil {
+					continue
+				}
+				for _, c := range callsTo(callee, "fmt.Errorf") {
+					if k, isK := c.Common().Args[0].(*ssa.Const); isK && strings.Contains(k.Value.ExactString(), "%w") {
+						okw = true
+					}
+				}
+			}
+		}
 		r.Check(okw, unw.String(), "end:wrap-%w", "", "the deferred error decoration uses %w", "the deferred wrapper does not keep the sentinel reachable through errors.Is (%w)")
 	}
 	_, _ = rcR, rcI
